@@ -112,6 +112,11 @@ func judgeReader(res *hx.Result, drv *hx.Driver, e readerEval, shrink bool) bool
 	bad := false
 	if v := readerOracle(c, e.obs); v != "" {
 		bad = true
+		res.Count("violation/" + readerSig(c, v))
+		if seenSig[readerSig(c, v)] { // one shrunk witness per signature (each re-run sleeps in the reader's backoff)
+			return bad
+		}
+		seenSig[readerSig(c, v)] = true
 		mc := c
 		if shrink {
 			mc = shrinkReader(c, func(x ReaderCase) bool { return readerOracle(x, runReaderImpl(x)) != "" })
